@@ -82,6 +82,13 @@ theorem check_sound (prog : List Stmt) :
         (freshOK_cons hf hn) (by simp; omega) r hr
       rw [halloc_cell_lt h _ (by omega)] at this
       exact this
+    | select d s idx =>
+      simp only [check] at hc
+      simp only [exec, exec1]
+      have := ih (d :: fresh) _ (halloc h ⟨0, idx.filterMap fun i => (h.cell (e s)).fields[i]?, []⟩) n0 hc
+        (freshOK_cons hf hn) (by simp; omega) r hr
+      rw [halloc_cell_lt h _ (by omega)] at this
+      exact this
     | load d s f =>
       simp only [check] at hc
       simp only [exec, exec1]
@@ -129,6 +136,72 @@ theorem check_sound (prog : List Stmt) :
       · subst hro; simp [hupd, Same]
       · rw [hupd_cell_ne h _ hro]; exact Same.refl _
 
+/-- Every in-place write of a checked program goes to a cell allocated inside the call: no
+reference written is below the frontier `n0` — in particular none is a view of an input. -/
+theorem writes_fresh (prog : List Stmt) :
+    ∀ (fresh : List Nat) (e : Env) (h : Heap) (n0 : Nat),
+      check prog fresh = true → FreshOK fresh e n0 → n0 ≤ h.next →
+      ∀ r ∈ writes prog e h, n0 ≤ r := by
+  induction prog with
+  | nil => intro fresh e h n0 _ _ _ r hr; simp [writes] at hr
+  | cons s ss ih =>
+    intro fresh e h n0 hc hf hn r hr
+    cases s with
+    | alloc d =>
+      simp only [check] at hc
+      simp only [writes, exec1, List.nil_append] at hr
+      exact ih (d :: fresh) _ _ n0 hc (freshOK_cons hf hn) (by simp; omega) r hr
+    | copyDict d s =>
+      simp only [check] at hc
+      simp only [writes, exec1, List.nil_append] at hr
+      exact ih (d :: fresh) _ _ n0 hc (freshOK_cons hf hn) (by simp; omega) r hr
+    | concat d s t =>
+      simp only [check] at hc
+      simp only [writes, exec1, List.nil_append] at hr
+      exact ih (d :: fresh) _ _ n0 hc (freshOK_cons hf hn) (by simp; omega) r hr
+    | select d s idx =>
+      simp only [check] at hc
+      simp only [writes, exec1, List.nil_append] at hr
+      exact ih (d :: fresh) _ _ n0 hc (freshOK_cons hf hn) (by simp; omega) r hr
+    | load d s f =>
+      simp only [check] at hc
+      simp only [writes, exec1, List.nil_append] at hr
+      exact ih _ _ h n0 hc (freshOK_filter hf) hn r hr
+    | loadCache d s f =>
+      simp only [check] at hc
+      simp only [writes, exec1, List.nil_append] at hr
+      exact ih _ _ h n0 hc (freshOK_filter hf) hn r hr
+    | move d s =>
+      simp only [check] at hc
+      simp only [writes, exec1, List.nil_append] at hr
+      by_cases hs : fresh.contains s = true
+      · simp only [hs, if_true] at hc
+        exact ih _ _ h n0 hc (freshOK_cons hf (hf s (by simpa using hs))) hn r hr
+      · simp only [hs, Bool.false_eq_true, if_false] at hc
+        exact ih _ _ h n0 hc (freshOK_filter hf) hn r hr
+    | setFields o fs =>
+      simp only [check, Bool.and_eq_true] at hc
+      simp only [writes, exec1, List.cons_append, List.nil_append, List.mem_cons] at hr
+      rcases hr with rfl | hr
+      · exact hf o (by simpa using hc.1)
+      · exact ih fresh e _ n0 hc.2 hf (by simpa using hn) r hr
+    | writeData o v =>
+      simp only [check, Bool.and_eq_true] at hc
+      simp only [writes, exec1, List.cons_append, List.nil_append, List.mem_cons] at hr
+      rcases hr with rfl | hr
+      · exact hf o (by simpa using hc.1)
+      · exact ih fresh e _ n0 hc.2 hf (by simpa using hn) r hr
+    | popKey o f =>
+      simp only [check, Bool.and_eq_true] at hc
+      simp only [writes, exec1, List.cons_append, List.nil_append, List.mem_cons] at hr
+      rcases hr with rfl | hr
+      · exact hf o (by simpa using hc.1)
+      · exact ih fresh e _ n0 hc.2 hf (by simpa using hn) r hr
+    | setCache o fs =>
+      simp only [check] at hc
+      simp only [writes, exec1, List.nil_append] at hr
+      exact ih fresh e _ n0 hc hf (by simpa using hn) r hr
+
 /-- two heaps that agree on every cell up to the caches, with the same frontier -/
 def HeapSame (h h' : Heap) : Prop := h.next = h'.next ∧ ∀ r, Same (h.cell r) (h'.cell r)
 
@@ -172,6 +245,10 @@ theorem exec_cache_independent (prog : List Stmt) :
       have h1 := hs.2 (e s)
       have h2 := hs.2 (e t)
       exact ih _ _ _ (by simpa [readsCache] using hr) (heapSame_halloc hs ⟨rfl, by simp [h1.2, h2.2]⟩)
+    | select d s idx =>
+      simp only [exec, exec1, hs.1]
+      have h1 := hs.2 (e s)
+      exact ih _ _ _ (by simpa [readsCache] using hr) (heapSame_halloc hs ⟨rfl, by simp [h1.2]⟩)
     | load d s f =>
       simp only [exec, exec1, (hs.2 (e s)).2]
       exact ih _ _ _ (by simpa [readsCache] using hr) hs
